@@ -407,6 +407,16 @@ class Verifier:
             if outcome == 'return':
                 res.exits['return'] = res.exits.get('return', 0) + 1
                 ns['result'] = result
+                if c.is_init and cc is not None and cc.shape is not None and \
+                        isinstance(bound.get('self'), SObj):
+                    # a constructor leaves an object with every field its class contract names
+                    shp = calls._obj_shape(cc.shape)
+                    missing = [f for f in getattr(shp, 'fields', {}) if f not in bound['self'].fields]
+                    if missing:
+                        ctx.oblige(f'{short}/post/constructed_object_has_its_fields', False,
+                                   where=short)
+                        ctx.obligations[-1].detail = f'never assigned: {missing}'
+                        return
                 for name, efn in c.ensures:
                     ctx.oblige(f'{short}/post/{name}', it.truth(calls.eval_clause(it, efn, ns)),
                                where=short)
